@@ -357,6 +357,17 @@ def _task_started(task: asyncio.Task) -> bool:
     return getcoroutinestate(coro) in (CORO_RUNNING, CORO_SUSPENDED)
 
 
+def _task_running(task: asyncio.Task) -> bool:
+    """
+    Return ``True`` if the task is in the middle of a step, even if it's not the current
+    task (it may be blocked in ``create_task()``, running an eagerly started task).
+
+    """
+    coro = task.get_coro()
+    running = getattr(coro, "cr_running", None)
+    return bool(getattr(coro, "gi_running", False) if running is None else running)
+
+
 #
 # Timeouts and cancellation
 #
@@ -607,8 +618,14 @@ class CancelScope(BaseCancelScope):
             if task._must_cancel:  # type: ignore[attr-defined]
                 continue
 
-            # The task is eligible for cancellation if it has started
-            if task is not current and (task is self._host_task or _task_started(task)):
+            # The task is eligible for cancellation if it has started and isn't in the
+            # middle of a step (a cancellation request made then could only be delivered
+            # at the task's next await, which may well be outside of this scope)
+            if (
+                task is not current
+                and not _task_running(task)
+                and (task is self._host_task or _task_started(task))
+            ):
                 waiter = task._fut_waiter  # type: ignore[attr-defined]
                 if not isinstance(waiter, asyncio.Future) or not waiter.done():
                     task.cancel(origin._cancel_reason)
